@@ -220,18 +220,23 @@ Definition ob_eqb (a b : ob) : bool :=
   end.
 
 (** the hash of a run: the CIDs the real builders gave, as a table
-    (builder id, bytes hashed, interned CID); 0 = not in the table *)
-Fixpoint hlookup (tab : list (Z * bytes * Z)) (b : Z) (bs : bytes) : Z :=
+    bytes hashed -> [(builder id, interned CID)]; 0 = not in the table *)
+Fixpoint blookup (l : list (Z * Z)) (b : Z) : Z :=
+  match l with
+  | [] => 0
+  | (b', c) :: r => if b =? b' then c else blookup r b
+  end.
+Fixpoint hlookup (tab : list (bytes * list (Z * Z))) (b : Z) (bs : bytes) : Z :=
   match tab with
   | [] => 0
-  | (b', bs', c) :: r => if (b =? b') && bytes_eqb bs bs' then c else hlookup r b bs
+  | (bs', l) :: r => if bytes_eqb bs bs' then blookup l b else hlookup r b bs
   end.
 
 (** [CRun d0 tab ops obs]: the ops were applied to NodeWithData(d0) on the real
     code, [obs] is what each call answered.
     [CDec bs r]: DecodeProtobuf(bs) on the real code gave [r] (data, links) or failed. *)
 Inductive case :=
-| CRun (d0 : option bytes) (tab : list (Z * bytes * Z)) (ops : list op) (obs : list ob)
+| CRun (d0 : option bytes) (tab : list (bytes * list (Z * Z))) (ops : list op) (obs : list ob)
 | CDec (bs : bytes) (r : option (option bytes * list link)).
 
 Definition check_case (c : case) : verdict :=
